@@ -490,4 +490,13 @@ example :
   engine_links_after_any_history linkOps
 
 
+/-- the same after ANY interleaving of operations on several engines that are alive at once and share list objects and node objects:
+a compute of ANY engine leaves exactly this pointer structure for that engine's nodes -/
+theorem engine_links_after_any_interleaving (ops : List EngineT.MOp) (k : Nat) :
+    LinksOK (EngineT.computeT ((EngineT.MWorld.run ops).engineAt k) (EngineT.MWorld.run ops).store).2
+      ((EngineT.computeT ((EngineT.MWorld.run ops).engineAt k) (EngineT.MWorld.run ops).store).1.layers.getD [])
+      (EngineT.computeT ((EngineT.MWorld.run ops).engineAt k) (EngineT.MWorld.run ops).store).1.nodes
+      ((EngineT.MWorld.run ops).engineAt k).opts.stubWidth :=
+  (engine_links ((EngineT.MWorld.run ops).engineAt k) (EngineT.MWorld.run ops).store (C06.mworld_good ops k)).1
+
 end Labella.C04
